@@ -53,6 +53,20 @@ Theorem T13_total_plus_one : forall xs, exs_ok xs ->
 Proof. exact (fun xs => total_counts_requests xs ob_flags). Qed.
 Print Assumptions T13_total_plus_one.
 
+(* ... and for ANY number of connections at once: each connection is served by the TCP server or by the http.Handler
+   variant (flag), runs any list of exchanges, a kept connection ends with its failed read; the registry sees the events
+   of all of them in ANY order (every interleaving is a permutation).  Gauge zero for every label, counter = requests. *)
+Theorem T13_gauge_zero_any_interleaving : forall (conns : list (bool * list ex)) tr l,
+  (forall c, In c conns -> exs_ok (snd c)) ->
+  Permutation.Permutation tr (flat_map conn_events conns) ->
+  gauge_get l (prom_inflight tr []) = 0%Z /\
+  zsum (prom_total tr []) = Z.of_nat (seq_requests (map x_val (flat_map snd conns))).
+Proof.
+  exact (fun conns tr l H P => conj (gauge_zero_concurrent conns tr l ob_flags ob_trace_read_guards_nil_req H P)
+                                    (total_concurrent conns tr ob_flags H P)).
+Qed.
+Print Assumptions T13_gauge_zero_any_interleaving.
+
 (* closeListener.Close under n concurrent callers, ANY interleaving, whether or not a layer below the
    wrapper has already closed the connection (pre): when all have returned the callback ran once
    (n >= 1) and the underlying Close n times *)
@@ -134,3 +148,35 @@ Example T13_example :
   run v = [ERead true; EModReq; EDial; EModRes SConnOK; EHead SConnOK; EBodyEnd; ETunnel; EWrote SConnOK LOwn false; EClose] /\
   crun close_uses_once close_returns_early_on_errclosed (cinit 3 true) (csched_seq 3) = Some (mkcst 0 0 0 0 3 true 1 3 true).
 Proof. exact (conj eq_refl (conj eq_refl eq_refl)). Qed.
+
+(* Non-vacuity of T13_gauge_zero_any_interleaving: a GET on a TCP-server connection and a GET on an http.Handler
+   connection whose events reach the registry interleaved (read, read, wrote, wrote, final failed read). *)
+Example T13_example_interleaving :
+  let nf := mkfeat false 0 false false false false None false false false false false 0 false in
+  let x := mkex (mkval 0 false false false false 0 0 false false 0 0 false false 0 false) (b "GET") 200 nf true 200 in
+  let conns := [(false, [x]); (true, [x])] in
+  let tr := match conn_events (false, [x]), conn_events (true, [x]) with
+            | [r1; w1; e1], [r2; w2] => [r1; r2; w2; w1; e1]
+            | _, _ => []
+            end in
+  (forall c, In c conns -> exs_ok (snd c)) /\
+  length tr = 5%nat /\
+  Permutation.Permutation tr (flat_map conn_events conns) /\
+  gauge_get (b "GET") (prom_inflight tr []) = 0%Z /\ zsum (prom_total tr []) = 2%Z.
+Proof.
+  cbv zeta. split.
+  - intros c [<-|[<-|[]]] y [<-|[]]; left; vm_compute; reflexivity.
+  - split; [vm_compute; reflexivity|]. split.
+    + vm_compute.
+      match goal with |- Permutation.Permutation [?r1; ?r2; ?w2; ?w1; ?e1] _ =>
+        apply Permutation.perm_skip;
+        apply (Permutation.Permutation_trans (l' := [w1; r2; w2; e1]));
+        [ apply (Permutation.Permutation_trans (l' := [r2; w1; w2; e1]));
+          [apply Permutation.perm_skip, Permutation.perm_swap | apply Permutation.perm_swap]
+        | apply Permutation.perm_skip; apply (Permutation.Permutation_trans (l' := [e1; r2; w2]));
+          [ apply (Permutation.Permutation_trans (l' := [r2; e1; w2]));
+            [apply Permutation.perm_skip, Permutation.perm_swap | apply Permutation.perm_swap]
+          | apply Permutation.perm_skip; apply Permutation.Permutation_refl ] ]
+      end.
+    + split; vm_compute; reflexivity.
+Qed.
